@@ -62,6 +62,8 @@ def corpus():
     out.append(case([P(["attempt", "confirm"]), P(["peek", "forcebreak"]), P(["attempt"])], [0] * 3 + [1] * 6 + [2] * 4 + [0] * 2 + [2]))
     out.append(case([P(["attempt", "confirm"]), P(["peek", "forcebreak"]), P(["attempt"])], [0] * 3 + [1] * 6 + [2] * 4 + [0] * 2 + [2],
                     transport="local"))
+    out.extend(steal_race_family(None, 0))
+    out.extend(relock_family(None, 0))
     # steal from a dead holder
     out.append(case([P(["attempt", "crash"], wid=DEADW), P(["attempt", "unlock"])], [0] * 4 + [1] * 16, steal=True))
     out.append(case([P(["attempt", "crash"], wid=DEADW), P(["attempt", "unlock"])], [0] * 4 + [1] * 16, steal=False))
@@ -76,6 +78,50 @@ def corpus():
         for u in ("ours", "other", None):
             for pd in ("alive", "dead", None):
                 out.append({"kind": "dead", "host": h, "user": u, "pid": pd})
+    return out
+
+
+def steal_race_family(rng, nrandom):
+    """Two (or three) lockers race to steal ONE stale lock left by a dead external holder: the second one steals
+    and acquires between the first one's examination of the holder and its break.  Unless the breaker still
+    compares with the holder it EXAMINED, it removes the winner's live lock (two live holders)."""
+    dead = dict(DEADW, c="info")
+    out = []
+    for tr in ("memory", "local"):
+        for k in (4, 5, 6):      # B stops after its contention peek / after re-reading held / just before the rename
+            out.append(case([P(["attempt"]), P(["attempt"])], [0] * k + [1] * 14 + [0] * 14, transport=tr, steal=True, h0=dead))
+        out.append(case([P(["attempt", "confirm"]), P(["attempt", "confirm"]), P(["attempt"])],
+                        [0] * 4 + [1] * 4 + [2] * 14 + [1] * 14 + [0] * 14 + [2, 1, 0], transport=tr, steal=True, h0=dead))
+    for _ in range(nrandom):
+        n = rng.choice([2, 2, 3])
+        procs = [P(rng.choice([["attempt"], ["attempt", "confirm"], ["attempt", "unlock"]])) for _ in range(n)]
+        sched = []
+        for p in rng.sample(range(n), n):              # everybody examines the dead holder first ...
+            sched += [p] * rng.choice([4, 4, 5, 6])
+        sched += bursty(rng, n, 16 * n)                 # ... then they break / acquire in a random interleaving
+        out.append(case(procs, sched, transport=rng.choice(["memory", "local"]), steal=True, h0=dead))
+    return out
+
+
+def relock_family(rng, nrandom):
+    """One LockDir OBJECT acquires, releases and acquires again while another locker breaks with the holder info it
+    peeked during the FIRST acquisition: the break must fail (LockBreakMismatch) -- every acquisition has its own nonce."""
+    out = []
+    for tr in ("memory", "local"):
+        out.append(case([P(["attempt", "unlock", "attempt", "confirm"]), P(["peek", "forcebreak", "attempt"])],
+                        [0] * 4 + [1] + [0] * 8 + [1] * 9 + [0], transport=tr))
+        out.append(case([P(["attempt", "unlock", "attempt", "confirm"]), P(["peek", "forcebreak"]), P(["attempt"])],
+                        [0] * 4 + [1] + [0] * 8 + [1] * 5 + [2] * 4 + [0], transport=tr))
+        # the holder is "dead" by identity (pid reuse), the other locker steals with what it examined before the re-lock
+        out.append(case([P(["attempt", "unlock", "attempt", "confirm"], wid=DEADW), P(["attempt"])],
+                        [0] * 4 + [1] * 4 + [0] * 8 + [1] * 8 + [0], transport=tr, steal=True))
+    for _ in range(nrandom):
+        a = ["attempt", "unlock", "attempt"] + rng.choice([[], ["confirm"], ["unlock", "attempt"]])
+        x = rng.choice([["peek", "forcebreak", "attempt"], ["peek", "forcebreak"], ["peek", "peek", "forcebreak", "attempt"]])
+        procs = [P(a), P(x)] + ([P(["attempt"])] if rng.random() < 0.4 else [])
+        n = len(procs)
+        sched = [0] * 4 + [1] * rng.choice([1, 1, 2]) + [0] * rng.choice([4, 8, 8, 8]) + bursty(rng, n, 10 * n)
+        out.append(case(procs, sched, transport=rng.choice(["memory", "local"])))
     return out
 
 
@@ -143,6 +189,11 @@ def cases(rng, tier):
         yield case([P(["attempt", "unlock"], wid=DEADW), P(["attempt", "unlock"]), P(["attempt"])],
                    [0] * 4 + [1] * 4 + il + [1] * 6 + [2] * 6 + [0] * 3, steal=True, transport=tr[k % 2])
         k += 1
+    # (d) two stealers on one dead holder's lock; (e) re-lock through the same LockDir object vs a break with old info
+    for c in steal_race_family(rng, 25 if quick else 400):
+        yield c
+    for c in relock_family(rng, 25 if quick else 400):
+        yield c
     # random
     nrand = 250 if quick else 6000
     wids = [OURS, OURS, OURS, DEADW, {"host": "localhost", "user": "ours", "pid": "dead"},
@@ -207,9 +258,37 @@ def oracle(inp, obs):
     if obs["max_observable"] > 1:
         return "more than one locker is_held with its nonce in held/info"
     if obs["steal_bad"]:
-        return obs["steal_bad"]
+        return obs["steal_bad"] + ("; " + obs["two_holders"] if obs["two_holders"] else "")
     if obs["flags"][1]:
         return RACE_MSG + " (the rename moved a later holder's lock into broken.*.tmp; LockBreakMismatch is raised only afterwards and nothing is put back)"
+    if obs["later_bad"]:
+        return ("a break removed the lock of a later holder than the one whose info was examined: " + obs["later_bad"]
+                + ("; " + obs["two_holders"] if obs["two_holders"] else ""))
+    if obs["nonce_reuse"]:
+        return "two acquisitions carry the same nonce: " + obs["nonce_reuse"]
+    return None
+
+
+def search(hint_inputs, rng):
+    """Wider search for a schedule on which the PROPERTY fails on the implementation (used when the tie breaks)."""
+    cands = []
+    cands += steal_race_family(rng, 150)
+    cands += relock_family(rng, 150)
+    for h in hint_inputs:
+        if h.get("kind") != "sched":
+            continue
+        n = len(h["procs"])
+        for _ in range(6):
+            cands.append(dict(h, sched=list(h["sched"]) + bursty(rng, n, 12 * n)))
+            cands.append(dict(h, sched=bursty(rng, n, len(h["sched"]) + 8 * n)))
+    for c in cands:
+        try:
+            o = impl(c)
+        except Exception:
+            continue
+        why = oracle(c, o)
+        if why and not finding_matches("C26-force-break-race", c, o, why):
+            return (c, o, why)
     return None
 
 
@@ -259,16 +338,29 @@ def distribution(inputs, observations):
     return d
 
 
+def _verdict_class(inp):
+    try:
+        o = impl(inp)
+    except Exception:
+        return None
+    why = oracle(inp, o)
+    if not why:
+        return None
+    return (why.split(":")[0], "believe they hold" in why)
+
+
 def shrink(inp, fails):
+    """drop schedule steps while the SAME kind of violation (incl. its two-holders consequence) is still observed"""
     if inp.get("kind") != "sched":
         return inp
+    want = _verdict_class(inp)
     s = list(inp["sched"])
     changed = True
     while changed and len(s) > 1:
         changed = False
         for i in range(len(s) - 1, -1, -1):
             cand = dict(inp, sched=s[:i] + s[i + 1:])
-            if fails(cand):
+            if _verdict_class(cand) == want and fails(cand):
                 s = cand["sched"]
                 changed = True
                 break
